@@ -6,6 +6,8 @@ lookup, and the translated parameter formulas evaluated on the translated tables
 -/
 import OptRs.Driver.Perceive
 import OptRs.Model.BuildUFF
+import OptRs.Model.Wrapper
+import OptRs.Driver.FF
 import OptRs.Model.Energy
 import OptRs.Gen.AtomTypes
 import OptRs.Gen.UffFormulas
@@ -245,6 +247,58 @@ def paramsLine (line : String) : String :=
     | _, _, _ => "panic"
   | ["kijk", ti, tj, tk, a, b] =>
     hexOfFloat (uffFnsF.kijk ti.toNat! tj.toNat! tk.toNat! (floatOfHex a) (floatOfHex b))
+  | _ => "bad-op"
+
+end OptRs.Driver
+
+namespace OptRs.Driver
+open OptRs OptRs.Model OptRs.Gen
+
+/-- Candidate lists from a list of points (the wrapper model's `cands`). -/
+def candsOfPoints (zs : List Nat) (pts : List P3) : Nat → List Nat := candidates zs.toArray pts.toArray
+
+def p3Hash (pts : List P3) : String := fnvF (pts.flatMap fun p => [p.x, p.y, p.z])
+
+def showWState (s : WState P3) : String := s!"{canonConn s.conn} X:{p3Hash s.coords}"
+
+/-- `wrapper Z.. | op ; op ; …` with ops `C <hex…>` (set_coordinates with that flat list), `G` (generate_connectivty),
+`M <hex…>` (set_bond_orders), `B` (build_3d guard), `O <hex…>` (optimise; the resulting coordinates as observed).
+Prints the state (or the refusal) after every call. -/
+def wrapperLine (line : String) : String :=
+  match line.splitOn " | " with
+  | [h, opsText] =>
+    match words h with
+    | ["wrapper", zsT] =>
+      let zs := parseNatList zsT
+      let cands := fun (pts : List P3) => candsOfPoints zs pts
+      let s0 : WState P3 := fromSymbols cands { x := 0.0, y := 0.0, z := 0.0 } zs
+      let ops := (opsText.splitOn " ; ").filter (· ≠ "")
+      let (_, outs) := ops.foldl (fun (acc : WState P3 × List String) op =>
+        let (s, outs) := acc
+        match words op with
+        | "C" :: vals =>
+          let vals := if vals = ["-"] then [] else vals
+          let fs := vals.map floatOfHex
+          match setCoordinates s fs.length (parseCoords vals).toList with
+          | .ok s' => (s', outs ++ [showWState s'])
+          | .error e => (s, outs ++ [showWrapErr e ++ " " ++ showWState s])
+        | ["G"] => let s' := generateConnectivity cands s; (s', outs ++ [showWState s'])
+        | "M" :: vals =>
+          let vals := if vals = ["-"] then [] else vals
+          let r := wSetBondOrders s (vals.map fun v => classifyEntry (floatOfHex v))
+          match r.1 with
+          | .ok s' => (s', outs ++ [showWState s'])
+          | .error e => (r.2, outs ++ [showWrapErr e])
+        | ["B"] =>
+          match build3dGuard s with
+          | .ok _ => (s, outs ++ ["ok-would-build"])
+          | .error e => (s, outs ++ [showWrapErr e ++ " " ++ showWState s])
+        | "O" :: vals =>
+          let s' := { s with coords := (parseCoords vals).toList }
+          (s', outs ++ [showWState s'])
+        | _ => (s, outs ++ ["bad-op"])) (s0, [showWState s0])
+      " ;; ".intercalate outs
+    | _ => "bad-op"
   | _ => "bad-op"
 
 end OptRs.Driver
